@@ -1,27 +1,18 @@
-#![allow(dead_code, unused_imports, clippy::all)]
-#[cfg(kani)]
-mod probe {
-    use flatty::{prelude::*, FlatVec, FlexVec};
+//! Kani harness crate for agerasev/flatty (path dependencies on /repo).
+//! Compiled by `cargo kani` from /repo's current working tree on every check run.
+#![allow(dead_code, unused_imports, unused_variables, unused_mut, clippy::all)]
 
-    #[kani::proof]
-    #[kani::unwind(10)]
-    fn probe_vec() {
-        let b: [u8; 8] = kani::any();
-        let n: usize = kani::any();
-        kani::assume(n <= 8);
-        let r = FlatVec::<u8, u8>::from_bytes(&b[..n]);
-        if let Ok(v) = r {
-            assert!(v.len() <= v.capacity());
-        }
-        kani::cover!(r.is_ok());
-    }
-    #[kani::proof]
-    #[kani::unwind(10)]
-    fn probe_flex() {
-        let b: [u8; 6] = kani::any();
-        let n: usize = kani::any();
-        kani::assume(n <= 6);
-        let r = FlexVec::<u8, u8>::from_bytes(&b[..n]);
-        kani::cover!(r.is_ok());
-    }
-}
+pub mod buf;
+pub mod build;
+pub mod refm;
+pub mod shapes;
+pub mod stubs;
+
+#[cfg(kani)]
+mod em;
+#[cfg(kani)]
+mod port;
+#[cfg(kani)]
+mod ro;
+#[cfg(kani)]
+mod utf8;
